@@ -259,6 +259,58 @@ HARNESSES = [
     ),
 ]
 
+
+def h04_mem_handback(S):
+    """In-memory: a retry waiting for its back-off is looked at through the delayed category and handed back
+    (Queue.get_messages(category=DELAYED) ... message.reject()): it is still not delivered before the back-off is over."""
+    import asyncio
+    import repid.data._parameters as P
+    from repid.data._key import RoutingKey
+    from repid.message import MessageCategory
+    from harness.common import World, try_consume
+
+    e = S.int("failed_at_us", Y1970 + 10**15, Y2100 - 10**15)
+    backoff = S.int("backoff_us", 1, 40 * 86400 * SEC)
+    look = S.int("inspected_after_us", 0, 40 * 86400 * SEC)
+    wait = S.int("normal_consumer_after_us", 0, 80 * 86400 * SEC)
+    S.assume(look <= wait)
+    clock = PinnedClock(e)
+    out = {}
+
+    async def main(loop):
+        w = World()
+        await w.open(record=False)
+        key = RoutingKey(topic="job", queue="default", id_="r1")
+        params = P.Parameters(retries=P.RetriesProperties(max_amount=3), timestamp=S.datetime_us(e))
+        await w.broker.enqueue(key, "p", params)
+        c0 = w.broker.get_consumer("default", ["job"])
+        await c0.start()
+        got = await try_consume(c0)
+        assert got is not None
+        # the attempt failed: the worker's report requeues it with the policy's delay
+        await w.broker.requeue(key, "p", params._prepare_retry(S.timedelta_us(backoff)))
+        clock.set(e + look)
+        dc = w.broker.get_consumer("default", ["job"], None, MessageCategory.DELAYED)
+        await dc.start()
+        seen = await try_consume(dc)
+        out["seen"] = seen is not None
+        if seen is not None:
+            await w.broker.reject(seen[0])
+        clock.set(e + wait)
+        out["got"] = await try_consume(c0)
+
+    run_async(main, clock=clock)
+    if out["seen"]:
+        S.cover("inspected-and-handed-back")
+    if out["got"] is not None:
+        S.cover("delivered")
+        S.check("never-delivered-before-due", wait >= backoff, info="the retry was delivered to a normal consumer before its back-off was over")
+        S.check("counter-grew-by-one", out["got"][2].retries.already_tried == 1)
+    else:
+        S.cover("held-back")
+        S.check("not-forgotten-once-due", wait <= backoff + 2 * SEC, info="the back-off is over for more than two seconds and the retry is not delivered")
+
+
 from harness.c05 import h05_rabbit, h05_redis  # noqa: E402
 from harness.c02 import h02_rabbit_retry  # noqa: E402
 
@@ -309,3 +361,10 @@ HARNESSES.append(
 ASSUMPTIONS = [
     "step/chain harnesses use the in-memory broker; Redis and RabbitMQ back-off delivery is checked at the client boundary on fake servers",
 ]
+HARNESSES.append(Harness(
+    name="H04-mem-handback-keeps-backoff", scenario=h04_mem_handback, workers=4,
+    bounds={"failure instant": "any µs", "back-off": "any µs in (0, 40 d]", "inspection through the delayed category + reject": "any time up to 40 d later",
+            "normal consumer": "any time after that, up to 80 d"},
+    functions=["connections/in_memory/message_broker.py:InMemoryMessageBroker.requeue", "connections/in_memory/message_broker.py:InMemoryMessageBroker.reject",
+               "connections/in_memory/consumer.py:_InMemoryConsumer.consume"],
+    covers=["inspected-and-handed-back", "delivered", "held-back"]))
